@@ -102,7 +102,9 @@ def compare(text, native, fast=True):
         return ok, "expected correctly rounded %r (bits %016x), got %r (bits %016x)" % (f, bits(f), nf, nb)
     if f == 0:
         return nf == 0 or abs(nf) < 1e-300, "expected ~0 got %r" % nf
-    if nf == 0 and abs(f) < 2.3e-308:
-        return True, "subnormal flushed"
+    if abs(f) < 2.3e-308:
+        # subnormal range: relative accuracy is not meaningful; allow a few units of the subnormal spacing
+        ok = abs(nf - f) <= 8 * 2.0 ** -1074
+        return ok, "expected %r within 8 subnormal ulps, got %r" % (f, nf)
     rel = abs(nf - f) / abs(f)
-    return rel <= 2.0 ** -50 or abs(f) < 2.3e-308, "expected %r within 2^-50, got %r (rel %g)" % (f, nf, rel)
+    return rel <= 2.0 ** -50, "expected %r within 2^-50, got %r (rel %g)" % (f, nf, rel)
